@@ -83,6 +83,24 @@ def entry_points():
     eps["Annotation.get_annotated()"] = (lambda doc, n: para(doc).insert_annotation(Annotation("remark", creator="c", name=n), position=(2, 6)),
                                          between(lambda d, n: d.body.get_annotation(name=n), lambda e: e.get_annotated(as_text=True).strip(), "me t"), lambda e: e.name)
 
+    # several ranges in ONE paragraph, each made of a point mark whose end is set afterwards: the end of a name is the end
+    # of that name, whatever else the paragraph holds
+    def shared_range_store(doc, n):
+        p = None
+        for cand in doc.body.get_paragraphs():
+            if cand.inner_text.startswith("shared paragraph"):
+                p = cand
+                break
+        if p is None:
+            p = Paragraph("shared paragraph holding every range of this document")
+            doc.body.append(p)
+        ref = p.set_reference_mark(n, position=7)
+        p.set_reference_mark_end(ref, position=16)
+
+    eps["set_reference_mark_end / get_reference_mark_end(name=)"] = (shared_range_store, between(lambda d, n: d.body.get_reference_mark_end(name=n),
+                                                                   # (referenced_text joins the text nodes with blanks: other marks cut the text into pieces)
+                                                                   lambda e: e.referenced_text().replace(" ", ""), "paragraph"), lambda e: e.name)
+
     def named_range_store(doc, n):
         t = doc.body.get_table(name="NR")
         if t is None:
